@@ -374,6 +374,7 @@ static mi_msecs_t mi_process_start; // = 0
 
 static mi_stats_t* mi_stats_get_default(void) {
   mi_heap_t* heap = mi_heap_get_default();
+  if (heap == NULL || heap->tld == NULL) return &_mi_stats_main;  // the thread could not be initialized (out of memory)
   return &heap->tld->stats;
 }
 
